@@ -1,6 +1,7 @@
 import ChessVerif.Props.C06
 import ChessVerif.Props.C06real
 import ChessVerif.Model.SearchReal
+import ChessVerif.Proofs.SearchRealGuardedEq
 #print axioms ChessVerif.Props.C06.go_board_restored
 #print axioms ChessVerif.Props.C06.go_move_legal_or_null
 #print axioms ChessVerif.Props.C06.go_null_only_if_final_partial
@@ -44,3 +45,4 @@ import ChessVerif.Model.SearchReal
 #print axioms ChessVerif.Props.C06real.go_null_only_if_final_guarded
 #print axioms ChessVerif.Props.C06real.go_final_score_real
 #print axioms ChessVerif.Props.C06real.go_final_score_guarded
+#print axioms ChessVerif.SearchReal.realCompGuarded_eq
